@@ -385,14 +385,14 @@ def run(tier, seed):
         tl = 240
     else:
         cases = [(d, t, tr) for d in (2, 3, 4) for t in ('center', 'direct', 'regular') for tr in range(1, d + 1)]
-        cases += [(5, t, tr) for t in ('center', 'direct') for tr in (1, 2, 3, 4)] + [(6, 'center', 5)]
-        tl = 900
+        cases += [(5, t, tr) for t in ('center', 'direct') for tr in (1, 2, 3, 4)] + [(6, 'center', 5), (6, 'direct', 5)]
+        tl = 2400
     cases = [c for c in cases if c[2] >= 1]
     ck.bounds = {'columns d': sorted({c[0] for c in cases}), 'vine types': ['center', 'direct', 'regular'],
                  'truncation': 'see samples', 'tau': 'any symmetric matrix with entries in [-1,1], ties allowed'}
     ck.outside = ['that the first-level tau matrix is the Kendall tau of the data (pandas corr(method="kendall"))',
                   'regular vines with d >= 5 (the first tree alone has more than 2.5e5 order types of the 10 pairwise |tau|: measured, not exhaustible), '
-                  'direct vines with d >= 6 (> 1e5 paths in 400 s, not exhausted), d = 7']
+                  'regular and direct vines with d = 7, center vines with d = 7']
     ck.assumptions = ['stub contracts above']
     findings_havoc = []
     for c in cases:
